@@ -423,6 +423,8 @@ impl<const L: usize> BYInverter<L> {
             (delta, matrix) = Self::jump(&f, &g, delta);
             (f, g) = Self::fg(f, g, matrix);
             (d, e) = self.de(d, e, matrix);
+            #[cfg(feature = "verif-hooks")]
+            verif_by_log_push(delta, matrix, &f.0, &g.0, &d.0, &e.0);
         }
         // At this point the absolute value of "f" equals the greatest common divisor
         // of the integer to be inverted and the modulus the inverter was created for.
@@ -432,5 +434,91 @@ impl<const L: usize> BYInverter<L> {
             return None;
         }
         Some(Self::convert::<62, 64, S>(&self.norm(d, antiunit).0))
+    }
+}
+
+/// Verification hook: the state of the main loop of [`BYInverter::invert`] after one batch of
+/// 62 division steps (`jump`, `fg`, `de`), as 62-bit chunks in two's complement.
+#[cfg(feature = "verif-hooks")]
+#[derive(Clone, Debug, PartialEq, Eq)]
+pub struct VerifByStep {
+    /// The value of `delta` returned by `jump`.
+    pub delta: i64,
+    /// The transition matrix returned by `jump`.
+    pub matrix: [[i64; 2]; 2],
+    /// The chunks of `f` after `fg`.
+    pub f: Vec<u64>,
+    /// The chunks of `g` after `fg`.
+    pub g: Vec<u64>,
+    /// The chunks of `d` after `de`.
+    pub d: Vec<u64>,
+    /// The chunks of `e` after `de`.
+    pub e: Vec<u64>,
+}
+
+#[cfg(feature = "verif-hooks")]
+thread_local! {
+    static VERIF_BY_LOG: std::cell::RefCell<Option<Vec<VerifByStep>>> = const { std::cell::RefCell::new(None) };
+}
+
+/// Verification hook: switches the (observe-only, thread-local) log of the loop states of
+/// [`BYInverter::invert`] on and empties it. Off unless switched on.
+#[cfg(feature = "verif-hooks")]
+pub fn verif_by_log_start() {
+    VERIF_BY_LOG.with(|l| *l.borrow_mut() = Some(Vec::new()));
+}
+
+/// Verification hook: returns the logged loop states and switches the log off.
+#[cfg(feature = "verif-hooks")]
+pub fn verif_by_log_take() -> Vec<VerifByStep> {
+    VERIF_BY_LOG.with(|l| l.borrow_mut().take().unwrap_or_default())
+}
+
+#[cfg(feature = "verif-hooks")]
+fn verif_by_log_push(delta: i64, matrix: Matrix, f: &[u64], g: &[u64], d: &[u64], e: &[u64]) {
+    VERIF_BY_LOG.with(|l| {
+        if let Some(v) = l.borrow_mut().as_mut() {
+            v.push(VerifByStep {
+                delta,
+                matrix,
+                f: f.to_vec(),
+                g: g.to_vec(),
+                d: d.to_vec(),
+                e: e.to_vec(),
+            });
+        }
+    });
+}
+
+/// Verification hooks: public wrappers of the private building blocks of the inverter. All
+/// big integers are arrays of 62-bit chunks in two's complement, little-endian.
+#[cfg(feature = "verif-hooks")]
+impl<const L: usize> BYInverter<L> {
+    /// The chunks of the modulus, the chunks of the adjuster and the inverse of the modulus
+    /// modulo 2^62 held by this inverter (the outputs of `convert` and `inv` in `new`).
+    pub fn verif_parts(&self) -> ([u64; L], [u64; L], i64) {
+        (self.modulus.0, self.adjuster.0, self.inverse)
+    }
+
+    /// The private `jump`.
+    pub fn verif_jump(f: &[u64; L], g: &[u64; L], delta: i64) -> (i64, [[i64; 2]; 2]) {
+        Self::jump(&CInt::<62, L>(*f), &CInt::<62, L>(*g), delta)
+    }
+
+    /// The private `fg`.
+    pub fn verif_fg(f: &[u64; L], g: &[u64; L], t: [[i64; 2]; 2]) -> ([u64; L], [u64; L]) {
+        let (f, g) = Self::fg(CInt::<62, L>(*f), CInt::<62, L>(*g), t);
+        (f.0, g.0)
+    }
+
+    /// The private `de`.
+    pub fn verif_de(&self, d: &[u64; L], e: &[u64; L], t: [[i64; 2]; 2]) -> ([u64; L], [u64; L]) {
+        let (d, e) = self.de(CInt::<62, L>(*d), CInt::<62, L>(*e), t);
+        (d.0, e.0)
+    }
+
+    /// The private `norm`.
+    pub fn verif_norm(&self, value: &[u64; L], negate: bool) -> [u64; L] {
+        self.norm(CInt::<62, L>(*value), negate).0
     }
 }
